@@ -217,6 +217,8 @@ def check(prop, tier):
         files, ncases, nlines = generate(binary, PLANS[tier][prop], d, sd)
         lines, ntx = validate(prop, files, rep)
         ntx2, distinct, samples = nontrivial_stats(files)
+        if prop == "C01":
+            readers_part(binary, tier, sd, d, rep)
         rep.coverage.update(
             traces_validated_against_impl=ncases, evaluations=ntx, distinct_nontrivial=distinct,
             trace_lines=lines,
@@ -234,6 +236,29 @@ def check(prop, tier):
     finally:
         shutil.rmtree(d, ignore_errors=True)
     return rep.finish()
+
+
+def readers_part(binary, tier, sd, d, rep):
+    """C01, concurrent readers: a reader samples every view while the mutator is
+    parked right after setActiveStates (hook tx.applied); two more readers sample
+    StringAll (one atomic snapshot) and Time() all the time."""
+    n = 150 if tier == "quick" else 4000
+    pref = os.path.join(d, "readers")
+    rc, out = run([binary, "readers", "-n", str(n), "-seed", str(sd), "-out", pref], timeout=3000)
+    if rc != 0:
+        raise Inconclusive("readers driver failed: " + out[-1500:])
+    files = sorted(glob.glob(pref + ".*.ndjson"))
+    res = tlcrun.validate_traces("TraceViews", {}, files, timeout=3000)
+    nsamples = 0
+    for r in res:
+        if r["result"] is None:
+            raise Inconclusive("TraceViews failed: " + r["out"][-1500:])
+        nsamples += r["result"]["ntx"]
+        for l, f in r["result"]["viol"]:
+            line = tlcrun.line_of(r["file"], l)
+            rep.violation(dict(formula=f, reader=True), dict(kind="readers", property="C01", formula=f, sample=line),
+                          "reader sample violates %s: %s" % (f, json.dumps(line)[:300]))
+    rep.coverage["reader_samples"] = nsamples
 
 
 def check_c11(tier):
